@@ -10,7 +10,7 @@ import sys
 from zope.interface import (Interface, Declaration, implementer, implementer_only, implementedBy, providedBy,
                             directlyProvides, alsoProvides, classImplements, interfacemethod)
 from zope.interface import declarations
-from zope.interface.interface import InterfaceClass, adapter_hooks, InterfaceBase, SpecificationBase
+from zope.interface.interface import InterfaceClass, adapter_hooks, InterfaceBase, SpecificationBase, Specification
 from zope.interface.adapter import AdapterRegistry, VerifyingAdapterRegistry, LookupBase, VerifyingBase
 
 
@@ -139,6 +139,15 @@ class ClassRaises:
         raise Boom('class')
 
 
+class _UnsetSpec(Specification):
+    def __init__(self):      # Specification.__init__ never runs: the _implied slot stays unset
+        pass
+
+
+class ProvidedByUnsetSpec:
+    __providedBy__ = _UnsetSpec()
+
+
 def odd_values():
     ob = Cls()
     dob = Cls()
@@ -149,6 +158,7 @@ def odd_values():
             ('named-like-I', NamedLikeI()), ('provides-None', ProvidesNone()), ('provides-junk', ProvidesJunk()),
             ('provides-raises', ProvidesRaises()), ('providedBy-junk', ProvidedByJunk()),
             ('providedBy-raises', ProvidedByRaises()), ('providedBy-attrerr', ProvidedByAttrErr()),
+            ('providedBy-unset-spec', ProvidedByUnsetSpec()),
             ('class-raises', ClassRaises()), ('builtin-type', int), ('function', norm), ('module', json),
             ('super', super(Cls, ob)), ('implementedBy(Cls)', implementedBy(Cls)), ('Declaration', Declaration(I)),
             ('tuple', (I,)), ('Interface', Interface)]
@@ -231,6 +241,7 @@ def prog_adapt():
         'conform-not-callable': type('C', (), {'__conform__': 5})(),
         'class-with-conform': type('C', (), {'__conform__': lambda s, i: 'unbound'}),
         'provides': Cls(),
+        'providedBy-unset-spec': ProvidedByUnsetSpec(),
     }
     hooksets = {'none': [], 'None-then-value': [lambda i, o: None, lambda i, o: 'h'], 'falsy': [lambda i, o: ()],
                 'raises': [lambda i, o: (_ for _ in ()).throw(Boom())], 'bad-arity': [lambda i: 'x']}
